@@ -1714,6 +1714,15 @@ pub open spec fn listen_c12(evs: Seq<SEv>, cur: Option<(PktV, std::net::SocketAd
         None => true,
     }
 }
+/// C07 (single-port mode): an ERROR datagram from an endpoint that owns a transfer reaches that transfer (the worker ends on it)
+/// unless that transfer has ended already; the listener never swallows it
+pub open spec fn listen_c07(evs: Seq<SEv>, cur: Option<(PktV, std::net::SocketAddr)>, known: bool) -> bool {
+    match cur {
+        Some((PktV::Error { code, msg }, from)) => known ==> (evs.len() == 1 && evs[0] == (SEv::Routed { pkt: PktV::Error { code, msg }, to: from }))
+            || refusal(evs, ErrorCode::IllegalOperation, from),   // (the transfer's channel is closed: it has ended already)
+        _ => true,
+    }
+}
 /// C05 / C10: a datagram that cannot be received or decoded has no effect at all
 pub open spec fn listen_c05(evs: Seq<SEv>, cur: Option<(PktV, std::net::SocketAddr)>) -> bool {
     cur is None ==> evs.len() == 0
